@@ -1329,6 +1329,11 @@ class Executor:
         if name in ('YPSuccess', 'YPFail') and not args and self.modname == 'engine':
             res = '(SOk %s)' % st.comp['store'] if name == 'YPSuccess' else 'SFail'
             return [(st, self.new_handle(st, res, name))]
+        if self.modname == 'engine' and name == 'Functor' and len(args) == 2 and args[0].sort == 'Str' \
+                and args[1].sort == 'TList':
+            return [(st, SV('Term', '(TFun %s %s)' % (args[0].e, args[1].e)))]
+        if self.modname == 'engine' and name == 'Atom' and len(args) == 1 and args[0].sort == 'Str':
+            return [(st, SV('Term', '(TAtom %s)' % args[0].e))]
         if self.theory:
             r = self.theory.apply_name(self, e, name, args, st)
             if r is not None:
